@@ -91,7 +91,10 @@ impl SubtypeElements {
             SubtypeElements::ContainedSubtype {
                 subtype,
                 extensible: _,
-            } => subtype.contains_constraint_reference(),
+            } => {
+                matches!(subtype, ASN1Type::ElsewhereDeclaredType(_))
+                    || subtype.contains_constraint_reference()
+            }
             SubtypeElements::ValueRange {
                 min,
                 max,
